@@ -4,7 +4,7 @@ from ..tables import *
 
 LEVEL = 'proof'
 
-QUERY_TYPES = ('interp1d::Interp1D', 'interp2d::Interp2D')
+QUERY_TYPES = ('Interp1D', 'Interp2D')
 
 
 def all_mir_calls(lib):
@@ -47,9 +47,9 @@ def run(chk):
             chk.sample({"adt": a['path'], "types_walked": a['types_walked'], "cells": a['cell_paths'],
                         "params": a['reached_params']})
     names = {a['path'] for a in adts}
-    for need in ('interp1d::Interp1D', 'interp2d::Interp2D', 'interp1d::strategies::linear::Linear',
-                 'interp2d::strategies::bilinear::Bilinear', 'interp1d::strategies::cubic_spline::CubicSplineStrategy',
-                 'interp1d::strategies::cubic_spline::CubicSpline'):
+    for need in ('Interp1D', 'Interp2D', 'Linear',
+                 'Bilinear', 'CubicSplineStrategy',
+                 'CubicSpline'):
         chk.require(need in names, 'R17.1', 'adt-anchor-' + need, need, "public type `%s` is among the walked ADTs" % need)
     # ---- R17.2
     chk.ob('R17.2', "no static items in the crate (found %s)" % [s['path'] for s in f['statics']],
@@ -80,8 +80,8 @@ def run(chk):
             continue
         nd = strip_generics(d)
         is_query = any(nd.startswith(q + '::') for q in QUERY_TYPES) and b.get('vis') == 'Public'
-        is_strat = b.get('impl_trait') in ('interp1d::strategies::Interp1DStrategy',
-                                           'interp2d::strategies::Interp2DStrategy')
+        is_strat = b.get('impl_trait') in ('Interp1DStrategy',
+                                           'Interp2DStrategy')
         if not (is_query or is_strat):
             continue
         params = b.get('params', [])
@@ -110,7 +110,7 @@ def run(chk):
             chk.ob('R17.4', "macro-generated unsafe block in %s comes from ndarray::s (%s)" % (where, u['expn']),
                    ok, u['sp'], 'unsafe-macro-%s-%s' % (where, u['expn']))
         else:
-            ok = where == 'cast_unchecked' or _only_cast_inside(lib, u)
+            ok = lib.is_role(where, 'cast_unchecked') or _only_cast_inside(lib, u)
             chk.ob('R17.4', "hand-written unsafe block in %s contains nothing but a cast_unchecked call" % where,
                    ok, u['sp'], 'unsafe-' + where)
     chk.floor('R17.4', 'explicit unsafe blocks classified', n_exp, 1)
@@ -178,5 +178,5 @@ def _only_cast_inside(lib, u):
     for x in walk(b['root']):
         if x.get('k') == 'Block' and x.get('unsafe') and x['sp'] == u['sp']:
             inner = [y for y in walk(x) if y is not x and y.get('k') == 'Call']
-            return len(inner) == 1 and strip_generics(inner[0]['callee']['path']) == 'cast_unchecked'
+            return len(inner) == 1 and lib.is_role(strip_generics(inner[0]['callee']['path']), 'cast_unchecked')
     return False
